@@ -188,13 +188,12 @@ func init() {
 		},
 		"(*sync.WaitGroup).Wait": func(w *Worker, fr *frame, a []Value) (Value, bool) {
 			k := a[0].(*Value)
-			for {
+			w.mainG()
+			w.block(func() bool {
 				n, _ := w.pathState["wg"].(map[*Value]int)
-				if n == nil || n[k] == 0 {
-					return nil, true
-				}
-				w.yield("WaitGroup.Wait")
-			}
+				return n == nil || n[k] == 0
+			}, "WaitGroup.Wait")
+			return nil, true
 		},
 		"(*sync.Once).Do": func(w *Worker, fr *frame, a []Value) (Value, bool) {
 			k := a[0].(*Value)
@@ -373,7 +372,12 @@ func (w *Worker) indexByte(n int, at func(int) Int, c Int) Value {
 
 func lockIntr(what string) intrinsic {
 	return func(w *Worker, fr *frame, args []Value) (Value, bool) {
-		w.stub("sync.Mutex/RWMutex (cooperative scheduling: no contention)")
+		if w.E.Cfg.ExploreSchedules {
+			w.stub("sync.Mutex/RWMutex (blocking state machine; scheduler choices at lock/unlock are explored)")
+			w.realLock(what, args[0].(*Value))
+		} else {
+			w.stub("sync.Mutex/RWMutex (cooperative scheduling: no contention)")
+		}
 		if w.lockHook != nil {
 			w.lockHook(what, args[0].(*Value), fr)
 		}
@@ -382,15 +386,18 @@ func lockIntr(what string) intrinsic {
 }
 
 func atomicLoad(w *Worker, fr *frame, a []Value) (Value, bool) {
+	w.schedPoint("atomic")
 	w.noteAtomic(a[0].(*Value), false)
 	return load(a[0].(*Value)), true
 }
 func atomicStore(w *Worker, fr *frame, a []Value) (Value, bool) {
+	w.schedPoint("atomic")
 	w.noteAtomic(a[0].(*Value), true)
 	store(a[0].(*Value), a[1])
 	return nil, true
 }
 func atomicAdd(w *Worker, fr *frame, a []Value) (Value, bool) {
+	w.schedPoint("atomic")
 	p := a[0].(*Value)
 	w.noteAtomic(p, true)
 	old := (*p).(Int)
@@ -405,6 +412,7 @@ func atomicAdd(w *Worker, fr *frame, a []Value) (Value, bool) {
 	return nv, true
 }
 func atomicSwap(w *Worker, fr *frame, a []Value) (Value, bool) {
+	w.schedPoint("atomic")
 	p := a[0].(*Value)
 	w.noteAtomic(p, true)
 	old := *p
@@ -412,6 +420,7 @@ func atomicSwap(w *Worker, fr *frame, a []Value) (Value, bool) {
 	return old, true
 }
 func atomicCAS(w *Worker, fr *frame, a []Value) (Value, bool) {
+	w.schedPoint("atomic")
 	p := a[0].(*Value)
 	w.noteAtomic(p, true)
 	eq := w.valEq(*p, a[1])
